@@ -93,6 +93,7 @@ const preamble = `(set-logic ALL)
 (define-fun iface_nil () Iface (mk-iface 0 0))
 (define-fun bytes_nil () Bytes (mk-bytes true str_empty))
 (define-fun slice_nil () Slice (mk-slice 0 0))
+(declare-sort Trace 0)
 (declare-fun sconcat (Str Str) Str)
 (declare-fun ssub (Str Int Int) Str)
 (declare-fun sat (Str Int) Int)
@@ -499,7 +500,7 @@ func zeroOf(sort string) string {
 }
 
 func (s *Sym) typeID(t types.Type) string {
-	k := t.String()
+	k := strings.ReplaceAll(t.String(), "[]byte", "[]uint8")
 	if id, ok := s.typeIDs[k]; ok {
 		return strconv.Itoa(id)
 	}
